@@ -167,7 +167,13 @@ func execSquat(c SquatCase) (res vt.Result) {
 			if got >= 500 && got != 503 {
 				rec.Count("second_tenant_5xx", 1)
 			}
-			if err := w.observe(0); err != nil {
+			err := w.observe(0)
+			if err == nil && op.Kind == "deleteCol" {
+				// what is left on disk shows once the shards are loaded afresh
+				node.VerifShardManager().VerifUnloadAll()
+				err = w.observe(0)
+			}
+			if err != nil {
 				return vt.Result{Err: fmt.Errorf("after %s on %q by a second tenant with user id %.80q (%s; %d bytes; status %d): %v", op.Kind, c.Col, id, cands[id], len(id), got, err)}
 			}
 		}
